@@ -622,6 +622,7 @@ type FuncContract struct {
 	File       string
 	Sig        string
 	NoPanic    bool
+	FrameOnly  bool
 }
 
 type SpecFunc struct {
@@ -663,7 +664,7 @@ type SpecFile struct {
 var directiveKw = map[string]bool{
 	"func": true, "extern": true, "interface": true, "requires": true, "ensures": true, "assigns": true, "reads": true,
 	"loop": true, "pure": true, "trusted": true, "spec": true, "pred": true, "uninterp": true, "ghost": true,
-	"lemma": true, "axiom": true, "props": true, "nopanic": true, "exclude": true,
+	"lemma": true, "axiom": true, "props": true, "nopanic": true, "exclude": true, "frameonly": true,
 }
 
 func parseSpecFile(path string, pkgName string) (*SpecFile, error) {
@@ -924,6 +925,11 @@ func parseSpecFile(path string, pkgName string) (*SpecFile, error) {
 			sf.RawText = append(sf.RawText, fmt.Sprintf("%s:%d pure %s", path, d.line, cur.Key))
 		case "nopanic":
 			cur.NoPanic = true
+		case "frameonly":
+			// only frame / reads / postcondition obligations are generated; run-time panics and callee
+			// preconditions are assumed not to occur (listed as an assumption in the evidence)
+			cur.FrameOnly = true
+			sf.RawText = append(sf.RawText, fmt.Sprintf("%s:%d frameonly %s (safety and callee preconditions assumed)", path, d.line, cur.Key))
 		case "trusted":
 			if cur == nil {
 				return nil, p.errf("trusted outside func")
@@ -1093,6 +1099,10 @@ func (p *parser) parseAssignLoc() (AssignLoc, error) {
 	}
 	all := false
 	for {
+		if p.isOp(".") && p.peekAt(1).k == "op" && p.peekAt(1).v == "*" {
+			p.p += 2
+			return AssignLoc{E: &SCall{Fun: "allfields", Args: []SExpr{x}}}, nil
+		}
 		if p.isOp(".") && p.peekAt(1).k == "id" {
 			p.p++
 			x = &SSelect{x, p.next().v}
